@@ -182,6 +182,22 @@ class Sem:
             return self.nof(tree[1]).adjoint()
         return self.NOF.from_expr(self.sympy.sympify(self.atom_expr(tree)), operators=self.ops)
 
+    def nof_auto(self, tree):
+        """As nof(), but every atom is converted WITHOUT an operator list, so the operands of the arithmetic carry
+        different (and differently ordered) operator lists that the library has to merge."""
+        t = tree[0]
+        if t == "mul":
+            return self.nof_auto(tree[1]) * self.nof_auto(tree[2])
+        if t == "add":
+            return self.nof_auto(tree[1]) + self.nof_auto(tree[2])
+        if t == "sub":
+            return self.nof_auto(tree[1]) - self.nof_auto(tree[2])
+        if t == "pow":
+            return self.nof_auto(tree[1]) ** tree[2]
+        if t == "dagger":
+            return self.nof_auto(tree[1]).adjoint()
+        return self.NOF.from_expr(self.sympy.sympify(self.atom_expr(tree)))
+
     def mat(self, tree):
         t = tree[0]
         if t == "mul":
@@ -277,7 +293,18 @@ def check_case(case, enforce_all=False):
         return out
     if not close(M_x, M_ref, "arithmetic (+, -, *, **, adjoint)", "arithmetic"):
         return out
-    # 2. conversion of the whole expression
+    # 1b. the same arithmetic on forms that were converted separately, each with its own automatically found operator
+    #     list (a proper subset of the modes, or none for a constant)
+    if len(case["modes"]) >= 2:
+        try:
+            Xa = sem.nof_auto(tree)
+            M_xa = sem.space.nof_matrix(Xa)
+        except Exception as exc:  # noqa: BLE001
+            out.fail("exception", f"NumberOrderedForm arithmetic on separately converted operands raised {type(exc).__name__}: {str(exc)[:160]} on {show(tree)}")
+            return out
+        if not close(M_xa, M_ref, "arithmetic on operands with different operator lists", "arithmetic-mixed-lists"):
+            return out
+        out.labels.append("operands-with-different-operator-lists")
     try:
         e = sem.expr(tree)
         Y = sem.NOF.from_expr(sem.sympy.sympify(e), operators=sem.ops)
